@@ -119,33 +119,49 @@ class TealBlock(ABC):
         if slotsInUse is None:
             slotsInUse = set()
 
-        currentSlotsInUse = set(slotsInUse)
-        errors = []
+        errors: List[TealCompileError] = []
 
-        for op in self.ops:
-            if op.getOp() == Op.store:
-                for slot in op.getSlots():
-                    currentSlotsInUse.add(slot)
+        # iterative depth-first walk (same visiting order as a recursive formulation), so that
+        # long chains of blocks do not exhaust the interpreter's recursion limit
+        def visit(block: "TealBlock", slotsIn: Set["ScratchSlot"], isRoot: bool):
+            currentSlotsInUse = set(slotsIn)
 
-            if op.getOp() == Op.load:
-                for slot in op.getSlots():
-                    if slot not in currentSlotsInUse:
-                        e = TealCompileError(
-                            "Scratch slot load occurs before store", op.expr
-                        )
-                        errors.append(e)
+            for op in block.ops:
+                if op.getOp() == Op.store:
+                    for slot in op.getSlots():
+                        currentSlotsInUse.add(slot)
 
-        if not self.isTerminal():
+                if op.getOp() == Op.load:
+                    for slot in op.getSlots():
+                        if slot not in currentSlotsInUse:
+                            e = TealCompileError(
+                                "Scratch slot load occurs before store", op.expr
+                            )
+                            if isRoot or e not in errors:
+                                errors.append(e)
+
+            if block.isTerminal():
+                return iter(())
+
             sortedSlots = sorted(slot.id for slot in currentSlotsInUse)
-            for block in self.getOutgoing():
-                visitedKey = (id(block), *sortedSlots)
-                if visitedKey in visited:
-                    continue
-                visited.add(visitedKey)
+            return iter(
+                [
+                    (nextBlock, currentSlotsInUse, (id(nextBlock), *sortedSlots))
+                    for nextBlock in block.getOutgoing()
+                ]
+            )
 
-                for error in block.validateSlots(currentSlotsInUse, visited):
-                    if error not in errors:
-                        errors.append(error)
+        stack = [visit(self, slotsInUse, True)]
+        while len(stack) > 0:
+            try:
+                nextBlock, slotsOut, visitedKey = next(stack[-1])
+            except StopIteration:
+                stack.pop()
+                continue
+            if visitedKey in visited:
+                continue
+            visited.add(visitedKey)
+            stack.append(visit(nextBlock, slotsOut, False))
 
         return errors
 
